@@ -11,6 +11,8 @@ Decided structurally:
   C04.percall   who-may-write: the engine state that the wrapper writes on the per-call path is exactly the frozen transient
                 set (simulation counter, first_read_input, error counters, print switches, punch streams, the forced
                 selected-output heading flag ...) - no definition store is touched per call
+  C04.counter   engine code does not branch on scalars that restart in every call (simulation counter, first_read_input)
+                outside a frozen list of functions (printing them or returning them to BASIC is fine)
   C04.forced    the only per-call forced flag, SelectedOutput::new_def, may steer heading output only: engine code that is
                 control-dependent on it writes no SelectedOutput data (name -> pointer resolution etc.) and no engine member
                 other than the print/punch switches
@@ -234,6 +236,7 @@ def run(P, R, tier):
 
     # ------------------------------------------------------------------ C04.forced
     forced_rule(P, R, tab)
+    counter_rule(P, R, tab)
 
 
 def forced_rule(P, R, tab):
@@ -319,3 +322,53 @@ def forced_rule(P, R, tab):
                     R.ok("C04.forced", inst, "heading output only")
     if n_regions == 0:
         R.anchor_missing("C04.forced", "no engine code reads SelectedOutput::new_def any more")
+
+
+def counter_rule(P, R, tab):
+    """Engine scalars that restart with every API call (the simulation counter, first_read_input) may be printed or returned
+    to BASIC, but a branch on them makes engine behaviour depend on where the input is cut into calls."""
+    R.rule("C04.counter", "engine code does not branch on scalars that restart in every API call (simulation, first_read_input) outside the listed functions", minimum=2)
+    for name, row in tab["per_call_counters"].items():
+        if name == "comment":
+            continue
+        fq = "Phreeqc::" + name
+        allowed = row["may_branch"]
+        seen = set()
+        nread = 0
+        for key, f in sorted(P.functions.items()):
+            if f["q"].startswith("IPhreeqc::"):
+                continue
+            for x in T.walk(f["body"]):
+                cond = None
+                if x[0] == "If":
+                    cond = x[2]
+                elif x[0] == "While":
+                    cond = x[2]
+                elif x[0] == "For":
+                    cond = x[3]
+                elif x[0] == "Do":
+                    cond = x[3]
+                elif x[0] == "Cond":
+                    cond = x[2]
+                elif x[0] == "Switch":
+                    cond = x[2]
+                if not T.is_node(cond):
+                    continue
+                if x[0] == "For" and f["q"] in ("Phreeqc::run_simulations",):
+                    pass
+                if any(y[0] == "Member" and y[2] == fq for y in T.walk(cond)):
+                    nread += 1
+                    inst = "%s@%s" % (name, f["q"])
+                    if f["q"] in allowed:
+                        if inst not in seen:
+                            R.ok("C04.counter", inst, "allowed: " + allowed[f["q"]])
+                        seen.add(inst)
+                    else:
+                        R.violation("C04.counter", inst, "%s branches on `%s` (line %d), which restarts in every API call: the same input behaves differently "
+                                    "depending on where it is cut into Run* calls" % (f["q"], name, x[1]), file=f["file"], line=x[1], function=f["q"])
+        for fn_ in allowed:
+            if "%s@%s" % (name, fn_) not in seen:
+                if not P.fns_named(fn_):
+                    R.anchor_missing("C04.counter", "allowed function %s no longer exists" % fn_)
+        if nread == 0:
+            R.ok("C04.counter", name, "no engine branch reads it")
